@@ -268,6 +268,7 @@ func init() {
 			}
 		}
 		groupFoundations(c, true)
+		ownershipRules(c) // encodings handed out are copies; inputs are not modified
 	}
 }
 
